@@ -12,7 +12,7 @@ package coroutines
 //@ requires c != nil && r != nil && r.ReadPromise != nil
 //@ ensures (res != nil) != (err != nil)
 //@ ensures err == nil ==> res.Kind == t_api.ReadPromise && res.ReadPromise != nil
-//@ ensures err == nil ==> linearizes(res.ReadPromise.Status == seq.read.status(pre_promises(r.ReadPromise.Id)) && post_promises(r.ReadPromise.Id) == p.effective(pre_promises(r.ReadPromise.Id), T) && (res.ReadPromise.Status == t_api.StatusOK ==> res.ReadPromise.Promise != nil && pview(res.ReadPromise.Promise) == pview.row(p.effective(pre_promises(r.ReadPromise.Id), T))))
+//@ ensures err == nil ==> linearizes(res.ReadPromise.Status == seq.read.status(pre_promises(r.ReadPromise.Id)) && post_promises(r.ReadPromise.Id) == p.effective(pre_promises(r.ReadPromise.Id), T) && (res.ReadPromise.Status == t_api.StatusOK ==> res.ReadPromise.Promise != nil && pview(res.ReadPromise.Promise) == pview.row(p.effective(pre_promises(r.ReadPromise.Id), T))) && (res.ReadPromise.Status == t_api.StatusOK && res.ReadPromise.Promise.State == promise.Pending ==> T >= Tx))
 //@ ensures [C15 C13] err == nil ==> res != nil && res.Kind == t_api.ReadPromise && res.ReadPromise != nil && kstatus.ReadPromise(res.ReadPromise.Status)
 //@ ensures [C15 C13] err != nil ==> kerr.platform(errcode(err))
 
